@@ -98,10 +98,10 @@ DRV_TRUSTED = ["gopacket v1.1.19 decoders/serialisers, x/net/icmp.ParseMessage, 
 for _pid, _num, _labs, _sig in [
     ("C01", 1, ["drv", "eng"], {"1": "a hop was reported for a packet that is not a genuine reply to this run's probe with that TTL from that address", "1.9": "a hop from bytes the model cannot even parse"}),
     ("C02", 2, ["drv", "eng"], {"6.1": "a catalogue reply form is recognised by the matcher but rejected by the capture filter the entry point installs", "2": "a catalogue reply form was not recognised", "2.1": "a catalogue reply form was credited to the wrong TTL or responder", "2.2": "ACK without SACK blocks did not end the SACK run as not-supported", "2.3": "parallel engine: a reply readable one poll interval before the deadline was not accepted"}),
-    ("C04", 4, ["drv", "doc", "eng"], {"4": "destination flag differs from the protocol's proof of arrival from the target", "7": "engine: reported hop (address, RTT, destination flag) is not the reply kept by the merge rule"}),
+    ("C04", 4, ["drv", "doc", "eng"], {"4.2": "final document: an end-to-end sample is a round trip although no reply of that probe proved arrival (no hop flagged as destination), or 0 although one did", "4": "destination flag differs from the protocol's proof of arrival from the target", "7": "engine: reported hop (address, RTT, destination flag) is not the reply kept by the merge rule"}),
     ("C05", 5, ["drv", "eng", "doc"], {"5.3": "end-to-end statistics treat a 0 (= no answer) sample as a round trip, or are otherwise not those of the answered probes", "1": "the RTT was measured for a packet that does not answer the probe it was credited to (another probe's send time)", "5": "RTT is negative or not (processing instant - send instant of a probe with that TTL); engine kept a later duplicate"}),
     ("C06", 6, ["drv", "eng", "par"], {"6.5": "the source / destination endpoint reported in a run's result is not the one on the wire (real run, parameter lab kind 12)", "6.1": "probe malformed: version/IHL, TTL byte, length or checksum", "6.2": "probe flow fields differ from the run's", "6.3": "identifier shared with the probe of another TTL", "6": "emission order / pacing / stop-after-destination violated"}),
-    ("C09", 9, ["drv"], {"9.1": "the driver panicked", "9.2": "a non-empty inbound packet produced a run-aborting error", "9.3": "not-supported from a packet other than the permitted SACK case"}),
+    ("C09", 9, ["drv", "eng"], {"9.1": "the driver panicked", "9.2": "a non-empty inbound packet produced a run-aborting error", "9.3": "not-supported from a packet other than the permitted SACK case"}),
 ]:
     PROPS[_pid] = dict(num=_num, labs=_labs, rule=DRV_RULE + (" " + ENG_RULE if "eng" in _labs else "") + (" " + DOC_RULE if "doc" in _labs else ""),
         nontrivial="any case (every case is a distinct operation on a real driver); distinct by input bytes", trivial_classes=[],
@@ -149,7 +149,7 @@ LIFE_RULE = ("Lifecycle lab: the real runTracerouteOnce for udp, icmp, tcp-syn (
              "the k-th WriteTo / SetReadDeadline / Read (k = 1, 2, middle, last, last+1; every k in the thorough tier) x {fatal error, deadline error, zero-length read}; after the call returns the virtual clock runs on for 2 s so that any goroutine "
              "the run left behind touches its closed handles. Observed: error / result nil-ness, errors.Is(err, injected cause), per-handle close counts, use after close. SACK: the real-run part of the policy lab (kind 12: filter/send/read faults, handles closed once).")
 PROPS["C10"] = dict(num=10, labs=["life", "par"], rule=LIFE_RULE + " " + PAR_RULE, nontrivial="any fault-injection case", trivial_classes=[],
-    signatures={"10.1": "a handle was not closed exactly once, or was used after its close (also by a goroutine outliving the call)", "10.2": "the returned error does not wrap the injected cause", "10.3": "an error was returned together with a result, or neither", "10.7": "a socket the run opened itself (the UDP socket that yields the local address and holds the source port, the TCP port-reservation listener) was still open after the run returned (descriptor count, collector off)", "10.6": "a TCP connection dialled by the SACK run was still open (seen from the peer) after the run returned", "10.4": "a SendProbe failure (also one that was in flight when the destination answer was processed) did not fail the run with its cause", "10.9": "the entry point panicked"},
+    signatures={"10.1": "a handle was not closed exactly once, or was used after its close (also by a goroutine outliving the call)", "10.2": "the returned error does not wrap the injected cause", "10.3": "an error was returned together with a result, or neither", "10.8": "a fatal failure of a handle operation was returned to the run (after it had already recorded a hop, for instance) and the run still reported success with a partial path", "10.7": "a socket the run opened itself (the UDP socket that yields the local address and holds the source port, the TCP port-reservation listener) was still open after the run returned (descriptor count, collector off)", "10.6": "a TCP connection dialled by the SACK run was still open (seen from the peer) after the run returned", "10.4": "a SendProbe failure (also one that was in flight when the destination answer was processed) did not fail the run with its cause", "10.9": "the entry point panicked"},
     trusted_base=PAR_TRUSTED + ["fault injection happens at the Source/Sink seam; the real AF_PACKET / raw-socket code below it is not exercised"], assumptions=[])
 
 import vlib as _vlib
